@@ -56,6 +56,26 @@ type c04Result struct {
 	Fired   int      `json:"fired"`
 	Panic   string   `json:"panic,omitempty"`
 	Events  []vEvent `json:"events,omitempty"`
+	// negotiated outputs of each side that reported success: "ver|suite|alpn|srtp|ems|group|len(lcid)|len(rcid)|peer chain length"
+	CNeg string `json:"cneg,omitempty"`
+	SNeg string `json:"sneg,omitempty"`
+}
+
+func c04Negotiated(p *labPeer) string {
+	var o c11SideObs
+	c11Observe(p, &o, false)
+	if o.Err != "" {
+		return "?" + o.Err
+	}
+	cl := func(s string) int {
+		if s == "-" {
+			return -1
+		}
+
+		return len(s) / 2
+	}
+
+	return fmt.Sprintf("%s|%s|%s|%d|%v|%d|%d|%d|%d", o.Ver, o.Suite, o.ALPN, o.SRTP, o.EMS, o.Group, cl(o.LCID), cl(o.RCID), o.NPeer)
 }
 
 // c04Namer turns (sender, handshake type, message_seq, body) into the model's message name.
@@ -369,6 +389,12 @@ func runC04Case(idx int, cs *c04Case) (res c04Result) { //nolint:cyclop,gocognit
 		return res
 	}
 	res.CEst, res.SEst = r.c.hsErr == nil, r.s.hsErr == nil
+	if res.CEst {
+		res.CNeg = c04Negotiated(r.c)
+	}
+	if res.SEst {
+		res.SNeg = c04Negotiated(r.s)
+	}
 	if os.Getenv("VERIF_KEEP_EVENTS") != "" {
 		res.Events = r.rec.snapshot()
 	}
